@@ -76,6 +76,7 @@ def _impl():
         """Answers by task: intent tasks get the scripted intent, everything else the marker text."""
 
         tasks: list = []
+        gen_text: str = LLM_TEXT
 
         def _resp(self, prompt):
             info = llm_call_info_var.get()
@@ -86,7 +87,7 @@ def _impl():
                 return "  express greeting"
             if task == "generate_next_steps":
                 return "  bot express greeting"
-            return LLM_TEXT
+            return self.gen_text
 
         def _call(self, prompt, stop=None, run_manager=None, **kw):
             return self._resp(prompt)
@@ -215,6 +216,8 @@ def run_c16_case(case):
                     return False
                 if v == "W":
                     return ActionResult(return_value=True, context_updates={var: rewrite_text(kind, k)})
+                if v == "E":        # rewrite to the empty string
+                    return ActionResult(return_value=True, context_updates={var: ""})
                 raise RuntimeError("scripted fault")
             return act
 
@@ -320,6 +323,19 @@ V1_SITES = ["in_rail_0", "in_rail_1", "dialog_action", "ret_rail_0", "out_rail_0
 V2_SITES = ["in_rail_0", "in_rail_1", "ret_action", "gen_action", "out_rail_0", "out_rail_1"]
 
 
+def case_user_text(case, t):
+    us = (case.get("texts") or {}).get("user") or []
+    return us[t] if t < len(us) and us[t] is not None else f"USER-TEXT-{t}"
+
+
+def case_gen_text(case, t):
+    """Text of the LLM (v1: bot-message generation) / of the generation action (v2) in turn t."""
+    gs = (case.get("texts") or {}).get("gen") or []
+    if t < len(gs) and gs[t] is not None:
+        return gs[t]
+    return LLM_TEXT if case.get("version", "v1") == "v1" else f"{LLM_TEXT}-{t}"
+
+
 def _decide(case, turn, site, occ):
     """'A' | 'R' | 'X' for the occ-th call of `site` in turn `turn`."""
     for f in case.get("faults", []):
@@ -410,7 +426,7 @@ def _c03_app(version):
             if v == "X":
                 raise RuntimeError("scripted fault")
             if name == "gen_action":
-                return f"{LLM_TEXT}-{box['turn']}"
+                return case_gen_text(box["case"], box["turn"])
             if name == "ret_action":
                 return "chunks"
             return v != "R"
@@ -434,7 +450,8 @@ def run_c03_v1(case):
         box["occ"] = {}
         box["calls"] = []
         n0 = len(llm.tasks)
-        user = f"USER-TEXT-{t}"
+        user = case_user_text(case, t)
+        llm.gen_text = case_gen_text(case, t)
         msgs.append({"role": "user", "content": user})
         o = {"turn": t, "user": user, "exc": None, "reply": None}
         try:
@@ -512,7 +529,7 @@ def run_c03_v2(case):
         box["turn"] = t
         box["occ"] = {}
         box["calls"] = []
-        user = f"USER-TEXT-{t}"
+        user = case_user_text(case, t)
         o = {"turn": t, "user": user, "exc": None, "reply": None}
         try:
             res = app.generate(messages=[{"role": "user", "content": user}], state=state)
